@@ -526,7 +526,9 @@ class SArr(Value):
     def fresh(name, shape, dtype="float"):
         sort = _SORT[dtype]
         f = z3.Function(name, *([z3.IntSort()] * len(shape)), sort)
-        return SArr(shape, lambda idx: f(*idx), dtype, tag=name)
+        a = SArr(shape, lambda idx: f(*idx), dtype, tag=name)
+        a.prov = "arg"  # made by a harness: belongs to the caller of the target
+        return a
 
     @staticmethod
     def from_seq(seq: SSeq, dtype):
